@@ -28,7 +28,8 @@ Alphabet == <<
   [e |-> "CC", ch |-> 0, n |-> 120, v |-> 0], [e |-> "CC", ch |-> 0, n |-> 121, v |-> 0], [e |-> "CC", ch |-> 0, n |-> 123, v |-> 0],
   [e |-> "Panic"], [e |-> "ResetState"],
   [e |-> "Patch", ch |-> 0, p |-> 1], [e |-> "Patch", ch |-> 0, p |-> 2],
-  [e |-> "Gen", fr |-> 512], [e |-> "Gen", fr |-> 4000] >>
+  [e |-> "Gen", fr |-> 512], [e |-> "Gen", fr |-> 4000],
+  [e |-> "CC", ch |-> 0, n |-> 65, v |-> 127], [e |-> "CC", ch |-> 0, n |-> 5, v |-> 1] >>
 
 Init ==
   /\ S = Init0(Chans, NC, NC, Bl, 44100, ArpOn, IF AllocMode = 3 THEN -1 ELSE AllocMode, 0)
